@@ -95,11 +95,14 @@ def splice(text):
     return "".join(out), lines
 
 
-def lex(text, first_line=1, tolerant=False):
+def lex(text, first_line=1, tolerant=False, do_splice=True):
     """Phases 1-3 on `text`; returns a list of Tok.  tolerant=True turns characters that cannot start a token and
     unterminated literals into OTHER tokens (6.4p3 'each non-white-space character that cannot be one of the
     above') instead of raising LexError."""
-    text, lmap = splice(text)
+    if do_splice:
+        text, lmap = splice(text)
+    else:
+        lmap = None
     toks = []
     i = 0
     n = len(text)
@@ -206,8 +209,9 @@ def _literal_end(text, i):
 
 
 def relex(text):
-    """Spellings of the pp-tokens of an -E output (tolerant)."""
-    return [t.s for t in lex(text, tolerant=True)]
+    """Spellings of the pp-tokens of an -E output (tolerant).  A backslash that happens to be printed last on a line
+    is kept as a token (whether -E output re-reads as the same program is C19's question, not C09's)."""
+    return [t.s for t in lex(text, tolerant=True, do_splice=False)]
 
 
 def spell(toks):
@@ -643,6 +647,10 @@ class Preprocessor(object):
         while i < n:
             t = body[i]
             if t.s == "##" and t.kind == PUNCT:
+                if ops and ops[-1][0] == "paste":
+                    raise Undefined("##-##-adjacent")
+                if not ops or i + 1 >= n:
+                    raise Undefined("##-at-end")
                 ops.append(("paste", None, "body"))
                 i += 1
                 continue
